@@ -249,13 +249,10 @@ var vpC20Indirect = map[string]string{
 	"RemoveNew": "constructor", "TentativeAcceptNew": "constructor", "TentativeRejectNew": "constructor", "UndoNew": "constructor",
 	"UpdateNew": "constructor", "ViewNew": "constructor",
 	"ErrorInvalidType":  "error constructor",
-	"(Activity).Equals": "via ItemsEqual", "(Actor).Equals": "via ItemsEqual", "(Collection).Equals": "via ItemsEqual",
-	"(CollectionPage).Equals": "via ItemsEqual", "(IntransitiveActivity).Equals": "via ItemsEqual", "(ItemCollection).Equals": "via ItemsEqual",
-	"(Link).Equals": "via ItemsEqual", "(OrderedCollection).Equals": "via ItemsEqual", "(OrderedCollectionPage).Equals": "via ItemsEqual",
-	"(Collection).Contains": "via (*Collection).Append entry", "(CollectionPage).Contains": "via (*CollectionPage).Append entry",
-	"(OrderedCollection).Contains": "via (*OrderedCollection).Append entry", "(OrderedCollectionPage).Contains": "via (*OrderedCollectionPage).Append entry",
-	"(Collection).ItemsMatch": "via Contains", "(CollectionPage).ItemsMatch": "via Contains", "(ItemCollection).ItemsMatch": "via Contains",
-	"(OrderedCollection).ItemsMatch": "via Contains", "(OrderedCollectionPage).ItemsMatch": "via Contains", "(IRI).ItemsMatch": "IRI matching, not an item helper",
+	// the Equals / Contains / ItemsMatch methods are not listed here any more: "reached through ItemsEqual"
+	// was not true for nil pointers (ItemsEqual answers before calling them); they are driven directly by
+	// the synthesised calls of vpH_C20_auto, on a zero receiver
+	"(IRI).ItemsMatch": "IRI matching, not an item helper",
 	"JSONWriteIRIProp": "IRI writer", "MarshalJSON": "encoder entry (C20 encoders harness)", "GobEncode": "exercised: top, member and property entries",
 }
 
